@@ -48,3 +48,16 @@ package tikv
 //@       arg1.Req.(*kvrpcpb.ScanLockRequest).EndKey == ite(endKey != "" && (loc.EndKey == "" || endKey < loc.EndKey), endKey, loc.EndKey)
 
 //@ spec func inRange(s []byte, e []byte, k []byte) bool { return s <= k && (e == "" || k < e) }
+
+// A batch of locks is resolved in one region; after a failed attempt the region is looked up again and the batch is only
+// tried there if that region still holds the batch's first AND last key (the locks are in key order) - otherwise the
+// caller scans again. The location reported back holds the first and the last lock key.
+//@ func batchResolveLocksInOneRegion
+//@   prop C14
+//@   bytes: key
+//@   may-panic
+//@   requires bo != nil
+//@   requires expectedLoc == nil || (len(locks) > 0 && inRange(expectedLoc.StartKey, expectedLoc.EndKey, locks[0].Key) && inRange(expectedLoc.StartKey, expectedLoc.EndKey, locks[len(locks)-1].Key))
+//@   loop 1 invariant holds: resolvedLocation != nil && inRange(resolvedLocation.StartKey, resolvedLocation.EndKey, locks[0].Key) && inRange(resolvedLocation.StartKey, resolvedLocation.EndKey, locks[len(locks)-1].Key)
+//@   at call(BatchResolveLocks) assert where: arg_locks == locks && arg_loc == resolvedLocation.Region
+//@   ensures holds: err == nil && resolvedLocation != nil ==> inRange(resolvedLocation.StartKey, resolvedLocation.EndKey, locks[0].Key) && inRange(resolvedLocation.StartKey, resolvedLocation.EndKey, locks[len(locks)-1].Key)
